@@ -75,7 +75,13 @@ def u_get_z(ctx):
     st = State()
     cls, fs, free, live, nxt = alloc_world(eng, st)
     st.pc.append(alloc_inv(free, live, nxt))
-    outs = run_function(eng, ctx.fn(URW, "UrwidImage._ti_get_z_index"), st)
+    fn_ = ctx.fn(URW, "UrwidImage._ti_get_z_index")
+    if fn_.args.args:
+        # written as a classmethod: called on a SUBCLASS of UrwidImage (documented as supported); reads fall through to the
+        # class, writes create a subclass attribute - the shared allocator state must still be the one that is updated
+        sub = st.new("UrwidImageSubclass", {"@inherit": {k_: (True, v_) for k_, v_ in st.H(cls).items()}})
+        st.env[fn_.args.args[0].arg] = sub
+    outs = run_function(eng, fn_, st)
     z = z3.Int("z!e")
 
     def ensure(v, s):
@@ -231,11 +237,17 @@ def u_clear_hooks(ctx):
         st = State()
         self_, log = screen_world(ctx, eng, st)
         base_call(eng, name, may_raise=False)
+        CANV0, VIEWS0 = st.new("canvas", {}), st.new("viewset", {})
+        st.H(self_)["_ti_screen_canv"], st.H(self_)["_ti_image_cviews"] = CANV0, VIEWS0
         st.env.update(self=self_, args=(), kwargs=st.new("dict", {"@items": {}}))
         outs = run_function(eng, ctx.fn(URW, f"UrwidImageScreen.{name}"), st)
         for kind, val, s in outs:
             names = [x[0] for x in s.ghost["out"]]
             eng.oblige("images-cleared(once)-and-the-base-implementation-runs", s, And(kind != "raise", names.count("clear_images") == 1, names.count("base." + name) == 1), kind="post")
+            # data invariant of the screen: `_ti_image_cviews` describes the canvas remembered in `_ti_screen_canv` (draw_screen
+            # only recomputes it for a new canvas object); these hooks must leave both alone
+            h = s.H(self_)
+            eng.oblige("bookkeeping(canvas,views)-untouched", s, And(h["_ti_screen_canv"] is CANV0, h["_ti_image_cviews"] is VIEWS0), kind="post")
             if name == "_stop":
                 eng.oblige("images-cleared-before-the-screen-is-stopped", s, names.index("clear_images") < names.index("base._stop") if "clear_images" in names and "base._stop" in names else False, kind="post")
         obs += eng.obligations
